@@ -143,8 +143,7 @@ def rvbStep (nv edges gamma h state slots subvars start toggles accepted log ast
   s!"{showApprox pCode} {k} {showBool accOk} {showBool (startOk && growOk)} {moveTok} {p2Tok} {showBool (dbOk && codeOk && skelOk)} {verdict}"
 
 /-- kind `region`: the exact proposal model on the recorded draws. Output: subvars, starting state,
-toggle positions, cluster cells as `v.p` (`v._` for an idle variable), number of words consumed
-before the accept draw, status. -/
+toggle positions, number of words consumed before the accept draw, status. -/
 def regionStep (nv edges slots log : String) : String :=
   let E : Ising := { nvars := parseNat nv, edges := parseEdges edges, gamma := 0, h := 0 }
   let c : Config := { state := [], slots := parseSlots slots }
@@ -170,6 +169,13 @@ def step (toks : List String) : String :=
   | ["rvb", nv, edges, gamma, h, state, slots, subvars, start, toggles, accepted, log, astate, aslots] =>
     rvbStep nv edges gamma h state slots subvars start toggles accepted log astate aslots
   | ["region", nv, edges, slots, log] => regionStep nv edges slots log
+  | ["ptf", nv, edges, gamma, h, state, slots, subvars, start, toggles] =>
+    let E : Ising := { nvars := parseNat nv, edges := parseEdges edges, gamma := parseRat gamma, h := parseRat h }
+    let b : Config := { state := parseBits state, slots := parseSlots slots }
+    let sv := parseNats subvars
+    let R : Region := { subvars := sv, mask0 := mkMask E.nvars sv (parseBits start), toggles := parseNats toggles }
+    showApprox (rvbCodeMult E b R).1
+  | "pipe" :: _ => "same"
   | "sweepk" :: _ => "same"
   | _ => "bad-op"
 
